@@ -111,6 +111,13 @@ class Interval(Module):
             return GreaterThan(lower_bound, **kwargs)
         if torch.all(lower_bound == -math.inf):
             return LessThan(upper_bound, **kwargs)
+        if not any(
+            bool(torch.all(torch.isfinite(c.lower_bound))) and bool(torch.all(torch.isfinite(c.upper_bound)))
+            for c in (self, other)
+        ):
+            # two one-sided constraints (e.g. GreaterThan and LessThan) meet in a bounded interval: their shared transform
+            # (softplus, exp) does not saturate, so the bounded interval takes Interval's own default transform
+            return Interval(lower_bound, upper_bound)
         return Interval(lower_bound, upper_bound, **kwargs)
 
     def transform(self, tensor: Tensor) -> Tensor:
